@@ -366,7 +366,7 @@ func cmdCheck(args []string) int {
 		os.WriteFile(cexPath, cd, 0o644)
 		isKnown := false
 		for _, k := range known {
-			if k.Property == c.prop && k.Status == "open" && k.Harness == v.Harness && labelMatch(k.Label, v.Label) {
+			if k.Property == c.prop && k.Status == "open" && labelMatch(k.Harness, v.Harness) && labelMatch(k.Label, v.Label) {
 				fmt.Printf("KNOWN-FINDING: property=%s %s\n", c.prop, k.What)
 				isKnown = true
 				break
